@@ -38,12 +38,23 @@ type Result struct {
 func (r *Result) FromEnv(e *Env) {
 	r.History = e.History()
 	r.Sig = e.Signature()
-	r.Faults = e.Faults
-	r.Probes = e.Probes
+	// copies, under the lock: a goroutine leaked by the code under test may still be touching the environment
+	e.mu.Lock()
+	r.Faults, r.Probes = map[string]int{}, map[string]int{}
+	for k, v := range e.Faults {
+		r.Faults[k] = v
+	}
+	for k, v := range e.Probes {
+		r.Probes[k] = v
+	}
 	r.Viol = append(r.Viol, e.Viol...)
+	for _, m := range e.misuse {
+		r.Viol = append(r.Viol, Violation{Class: "SIM/object-used-by-a-stray-goroutine", Sig: "stream", Msg: m})
+	}
+	e.mu.Unlock()
 	r.SimTime = e.SimTime
 	nf := 0
-	for _, n := range e.Faults {
+	for _, n := range r.Faults {
 		nf += n
 	}
 	r.Nontrivial = e.Interleaved || nf > 0
